@@ -3,7 +3,7 @@
 (* C10 -- the built-in kernel functions (src/svm/mod.rs):                  *)
 (*                                                                         *)
 (*   linear      K(x,z) = <x,z>                                            *)
-(*   polynomial  K(x,z) = (gamma*<x,z> + coef0)^degree                     *)
+(*   polynomial  K(x,z) = (gamma*<x,z> + coef0)^degree   (degree any real) *)
 (*   RBF         K(x,z) = exp(-gamma*|x-z|^2)                              *)
 (*   sigmoid     K(x,z) = tanh(gamma*<x,z> + coef0)                        *)
 (*                                                                         *)
@@ -13,8 +13,15 @@
 (*                                                                         *)
 (* Inputs are integer vectors; gamma = gn/gd and coef0 = cn/cd are small   *)
 (* rationals with power-of-two denominators (exact binary floats).  Then   *)
-(*   - linear and polynomial values are rationals KNum/KDen that this      *)
-(*     module computes exactly;                                            *)
+(*   - linear and integer-degree polynomial values are rationals KNum/KDen *)
+(*     that this module computes exactly;                                  *)
+(*   - the degree of the polynomial kernel is a real parameter; it is      *)
+(*     recorded as deg/dd with dd in {1, 2, 4}.  For dd > 1 and a          *)
+(*     non-negative base the dd-th POWER of the value is the exact         *)
+(*     rational (ArgNum/ArgDen)^deg, so the closed form is still decided   *)
+(*     in integer arithmetic (RootClosed).  A negative base with a         *)
+(*     fractional degree has no real closed form (powf yields NaN): the    *)
+(*     statement is silent there and nothing is demanded;                  *)
 (*   - exp and tanh are not available in TLA+.  For RBF and sigmoid the    *)
 (*     closed form is pinned down by what *characterises* the function and *)
 (*     is polynomial: value at 0, range, exact monotone dependence on the  *)
@@ -68,7 +75,9 @@ D2(x, z) == D2From(x, z, 1)      \* squared Euclidean distance
 ArgNum(k, x, z) == k.gn * Dot(x, z) * k.cd + k.cn * k.gd
 ArgDen(k) == k.gd * k.cd
 
-IsExactKernel(k) == k.name \in {"linear", "poly"}
+(* kernels whose values are exact rationals KNum/KDen: linear, and polynomial of integer degree *)
+IsExactKernel(k) == k.name = "linear" \/ (k.name = "poly" /\ k.dd = 1)
+IsRootKernel(k) == k.name = "poly" /\ k.dd > 1           \* degree deg/dd, dd in {2, 4}
 
 KNum(k, x, z) == IF k.name = "linear" THEN Dot(x, z) ELSE Pow(ArgNum(k, x, z), k.deg)
 KDen(k) == IF k.name = "linear" THEN 1 ELSE Pow(ArgDen(k), k.deg)
@@ -108,6 +117,31 @@ PolyClosed(i, o) ==
     LET num == KNum(i.kernel, i.x, i.z)
         den == KDen(i.kernel)
     IN  Abs(o.v * den - num * Pow2(i.S)) <= den
+
+(* polynomial of degree deg/dd, dd > 1, base B = ArgNum/ArgDen >= 0:  K = B^(deg/dd), i.e.
+   K^dd = ArgNum^deg / ArgDen^deg exactly.  The observation v = fx_S(K) is within one unit of
+   K*2^S (half a unit of quantisation, half a unit of slack), K >= 0, and t |-> t^dd is
+   increasing on t >= 0, hence
+        max(v-1, 0)^dd * den  <=  num * 2^(S*dd)  <=  (v+1)^dd * den .
+   Both bounds are exact integer statements; nothing else is assumed about powf. *)
+RootInRange(k, x, z, v, S) ==
+    /\ k.deg >= 0 /\ k.deg <= 8 /\ k.dd \in {2, 4} /\ S * k.dd <= 24
+    /\ ArgNum(k, x, z) >= 0 /\ v >= 0
+    /\ PowFits(ArgNum(k, x, z), k.deg, Pow2(30 - S * k.dd))       \* num * 2^(S*dd) <= 2^30
+    /\ PowFits(ArgDen(k), k.deg, Pow2(12))                        \* den <= 2^12
+    /\ PowFits(v + 1, k.dd, Pow2(30) \div Pow(ArgDen(k), k.deg))  \* (v+1)^dd * den <= 2^30
+
+RootClosedAt(k, x, z, v, S) ==
+    LET num == Pow(ArgNum(k, x, z), k.deg)
+        den == Pow(ArgDen(k), k.deg)
+        mid == num * Pow2(S * k.dd)
+    IN  /\ Pow(Max2(v - 1, 0), k.dd) * den <= mid
+        /\ mid <= Pow(v + 1, k.dd) * den
+
+RootClosed(i, o) == RootClosedAt(i.kernel, i.x, i.z, o.v, i.S)
+
+(* no real closed form: fractional degree of a negative base *)
+RootUndefined(k, x, z) == IsRootKernel(k) /\ ArgNum(k, x, z) < 0
 
 (* RBF, pointwise: 0 < K <= 1, K(x,x) = 1 exactly, K(x,z) = 1 only if x = z is NOT
    demanded (tiny gamma*d^2 may round to 1); Taylor enclosure when gamma*d^2 <= 1 *)
